@@ -219,12 +219,9 @@ Proof. vm_compute. repeat split; try reflexivity; discriminate. Qed.
    as fits into avail_out and appends an end mark 0 when finishing *)
 Definition st_call (z : list N * list N) (inp : list N) (ao : nat) (fin : bool)
   : (list N * list N) * nat * list N * bool :=
-  match inp with
-  | [] => if fin then (if (1 <=? ao)%nat then ((fst z, snd z ++ [0]), O, [0], true) else (z, O, [], false))
-          else (z, O, [], false)
-  | _ => let k := Nat.min (length inp) ao in
-         ((fst z ++ firstn k inp, snd z ++ firstn k inp), k, firstn k inp, false)
-  end.
+  if fin && (length inp =? 0)%nat && (1 <=? ao)%nat then ((fst z, snd z ++ [0]), O, [0], true)
+  else let k := Nat.min (length inp) ao in
+       ((fst z ++ firstn k inp, snd z ++ firstn k inp), k, firstn k inp, false).
 
 Example C03_nonvacuous_drive :
   (forall z inp ao fin z' k o e, st_call z inp ao fin = (z', k, o, e) ->
@@ -234,10 +231,45 @@ Example C03_nonvacuous_drive :
     Some [[83; 84; 1; 2]; [3; 4; 5; 6]; [7; 8; 0]].
 Proof.
   split; [|split].
-  - intros z inp ao fin z' k o e H. unfold st_call in H. destruct inp as [|x inp].
-    + destruct fin; [destruct (1 <=? ao)%nat eqn:E|]; inversion H; subst; cbn;
-        rewrite ?app_nil_r; repeat split; try lia. apply Nat.leb_le in E. lia.
-    + inversion H; subst; cbn [fst snd]. repeat split; try reflexivity; rewrite ?firstn_length; lia.
-  - intros z inp ao z' k o e H. unfold st_call in H. destruct inp as [|x inp]; inversion H; reflexivity.
+  - intros z inp ao fin z' k o e H. unfold st_call in H.
+    destruct (fin && (length inp =? 0)%nat && (1 <=? ao)%nat) eqn:E.
+    + apply andb_true_iff in E. destruct E as [E E3]. apply andb_true_iff in E. destruct E as [E1 E2].
+      apply Nat.leb_le in E3. inversion H; subst. cbn [fst snd firstn length]. rewrite app_nil_r.
+      repeat split; try reflexivity; lia.
+    + cbv zeta in H. remember (Nat.min (length inp) ao) as m eqn:Em.
+      inversion H; subst z' k o e. cbn [fst snd]. repeat split; try reflexivity; rewrite ?firstn_length; lia.
+  - intros z inp ao z' k o e H. unfold st_call in H. cbn [andb] in H. cbv zeta in H. inversion H; reflexivity.
   - vm_compute. reflexivity.
+Qed.
+
+(* ... and so are those of the member theorems: one length byte, then the payload *)
+Definition lp_decomp1 (x : list N) : option (list N * list N) :=
+  match x with
+  | n :: t => if (N.to_nat n <=? length t)%nat
+              then Some (firstn (N.to_nat n) t, skipn (N.to_nat n) t) else None
+  | [] => None
+  end.
+Definition lp_bid (x : list N) : bool := match x with [] => false | _ => true end.
+Definition lp_member (x s : list N) : Prop := x = N.of_nat (length s) :: s.
+
+Example C03_nonvacuous_members :
+  (forall x s rest, lp_member x s -> lp_decomp1 (x ++ rest) = Some (s, rest)) /\
+  (forall x s rest, lp_member x s -> lp_bid (x ++ rest) = true) /\
+  (forall x s, lp_member x s -> x <> []) /\
+  read_members lp_bid lp_decomp1 3 ([2; 7; 8] ++ [1; 9]) = Some ([7; 8] ++ [9]).
+Proof.
+  split; [|split; [|split]].
+  - intros x s rest ->. cbn [app lp_decomp1]. rewrite Nat2N.id, app_length.
+    replace (length s <=? length s + length rest)%nat with true by (symmetry; apply Nat.leb_le; lia).
+    rewrite firstn_app_exact, skipn_app_exact by reflexivity. reflexivity.
+  - intros x s rest ->. reflexivity.
+  - intros x s ->. discriminate.
+  - apply (C03_member_concat lp_bid lp_decomp1 lp_member).
+    + intros x s rest ->. cbn [app lp_decomp1]. rewrite Nat2N.id, app_length.
+      replace (length s <=? length s + length rest)%nat with true by (symmetry; apply Nat.leb_le; lia).
+      rewrite firstn_app_exact, skipn_app_exact by reflexivity. reflexivity.
+    + intros x s rest ->. reflexivity.
+    + intros x s ->. discriminate.
+    + reflexivity.
+    + reflexivity.
 Qed.
